@@ -7,8 +7,8 @@
      a soft limit RLIMIT_NOFILE on descriptor *numbers* ([Process::set_fd]),
      [open] = lowest unused descriptor, [dup(fd, min, flags)] = lowest unused
      descriptor >= min, [dup2], [close], and a tiny file system (path key |->
-     regular file / directory) with the O_CREAT / O_EXCL / O_TRUNC effects of
-     [VirtualSystem::resolve_file].
+     regular file / directory) with the O_CREAT / O_EXCL / O_TRUNC effects and
+     the EISDIR rule of [VirtualSystem::resolve_file].
 
    Every *allocation* of a descriptor additionally consumes one bit of a fault
    list [k_flt]; a [true] bit makes the allocation fail with EMFILE whatever the
@@ -161,7 +161,11 @@ Definition k_dup (s : kst) (from min : N) (cx : bool) : kst * res N :=
 Definition t_dup2 (lim : option N) (t : table) (from to : N) : table * bool :=
   match lookup t from with
   | None => (t, false)
-  | Some e => if in_limit lim to then (tset t to (mkEnt (e_ofd e) false), true) else (t, false)
+  | Some e =>
+      (* POSIX: if the two descriptors are equal, dup2 returns it without
+         closing it or changing its flags *)
+      if N.eqb from to then (t, true)
+      else if in_limit lim to then (tset t to (mkEnt (e_ofd e) false), true) else (t, false)
   end.
 
 Definition k_dup2 (s : kst) (from to : N) : kst * bool :=
@@ -186,7 +190,7 @@ Record oflags := mkFl { f_create : bool; f_excl : bool; f_trunc : bool; f_append
 
 (* VirtualSystem::resolve_file: the effects on the file system happen before a
    descriptor is allocated *)
-Definition k_resolve (f : fsys) (p : pth) (fl : oflags) : fsys * res N :=
+Definition k_resolve (f : fsys) (p : pth) (w : bool) (fl : oflags) : fsys * res N :=
   match p with
   | PBad => (f, Err EOTHER)
   | PKey k =>
@@ -195,8 +199,9 @@ Definition k_resolve (f : fsys) (p : pth) (fl : oflags) : fsys * res N :=
           if f_excl fl then (f, Err EEXIST)
           else
             match node with
+            | Dir => if w then (f, Err EOTHER) (* EISDIR: a directory is opened read-only or not at all *)
+                     else (f, Ok k)
             | Reg _ _ => if f_trunc fl then (fs_set f k (Reg [] false), Ok k) else (f, Ok k)
-            | Dir => (f, Ok k)
             end
       | None => if f_create fl then (fs_set f k (Reg [] false), Ok k) else (f, Err ENOENT)
       end
@@ -208,7 +213,7 @@ Definition new_ofd (s : kst) (o : ofd) : kst * N :=
 
 (* Open::open *)
 Definition k_open (s : kst) (p : pth) (r w : bool) (fl : oflags) : kst * res N :=
-  let (f', rk) := k_resolve (k_fs s) p fl in
+  let (f', rk) := k_resolve (k_fs s) p w fl in
   let s1 := with_fs s f' in
   match rk with
   | Err e => (s1, Err e)
@@ -220,7 +225,7 @@ Definition k_open (s : kst) (p : pth) (r w : bool) (fl : oflags) : kst * res N :
 (* Open::open with O_CLOEXEC, read-only, no other flag (how the shell opens a
    script for its own use) *)
 Definition k_open_cx (s : kst) (p : pth) : kst * res N :=
-  let (f', rk) := k_resolve (k_fs s) p (mkFl false false false false) in
+  let (f', rk) := k_resolve (k_fs s) p false (mkFl false false false false) in
   let s1 := with_fs s f' in
   match rk with
   | Err e => (s1, Err e)
